@@ -80,7 +80,9 @@ CHECKS["C19"] = dict(
   text="Complete decision per format: the real Date constructor is executed for each of the 48 documented formats (and formats=None), "
        "both is_extensible settings, and the language of possible matches of the emitted regex in every context is proved equal to the "
        "language generated from the format string (independent table) by regular-language inclusion in both directions - all texts. "
-       "Subsets: sampled subsets decided likewise; __date_formats() equals the documented list; undocumented formats rejected (bounded sample).",
+       "Subsets: sampled subsets decided likewise. Validation (VCs over the real Date.__init__, all strings, lists up to length 3): "
+       "InvalidArgumentValueException iff some selected format is not documented, nothing else raised; Date.__date_formats proved to "
+       "return exactly the 48 documented formats.",
   note="Relative to R3,R4,R6,R7, the rx2smt translator (cross-checked against re each run), z3 regex theory + derivative-product "
        "decision procedure (both must agree), specs/dates.py. Arbitrary subsets rest on Either's contract (C02).",
   technique="postcondition on the emitted pattern decided for all texts by regular-language inclusion (z3 regex theory cross-checked by a derivative-product procedure); finite parameter domain executed on the real code",
@@ -145,10 +147,13 @@ CHECKS["C06"] = dict(
        "0x110000 code points, incl. the complement law and ~A == AnyBut* (complete). Parametric constructors (AnyFrom/AnyButFrom/"
        "AnyBetween/AnyButBetween) are checked by the bounded stand-in B2: all singles and pairs (and sampled triples) of 25 "
        "distinguished characters plus 5 token instances, every ordered pair as a range, under several hash seeds, membership over "
-       "~800 interesting code points. 'For any characters at all' is therefore sampled, hence exploration.",
+       "~800 interesting code points. 'For any characters at all' is therefore sampled, hence exploration. Proved part (G9, VCs over "
+       "all arguments): the four constructors raise exactly the documented exceptions (single character / token, start < end by code "
+       "point, at least one argument) and hand '[...]' / '[^...]' with exactly the requested characters, each special one escaped, "
+       "to __Class.__init__ (ghost CLASSARG).",
   note="R7 about bracket expressions; specs/charsets.py written from the documentation / Unicode block definitions; Unicode surplus of "
        "\\d \\s \\w masked as the property allows.",
-  technique="complete finite decision over all code points for the named classes; bounded contract check (labelled) of the parametric constructors - the class text layer is outside the solvers' reach",
+  technique="complete finite decision over all code points for the named classes; contracts + VCs (z3) for the parametric constructors' validation and bracket text; bounded contract check (labelled) of what the class text layer makes of that text",
   design_ref="DESIGN.md section 8 (C06), 7 (B2)")
 CHECKS["C07"] = dict(
   category="proof",
@@ -173,15 +178,18 @@ CHECKS["C15"] = dict(
        "and the emitted regex's language of possible matches IN EVERY CONTEXT is proved equal to 'canonical numeral of [start,end], "
        "not glued to a word character' (extensible: preceded by a non-digit) by regular-language inclusion in both directions; sign "
        "variants likewise. __Integer.__integer itself (digit loop building nested look-behinds) is outside the solvers' reach for "
-       "symbolic parameters, hence exploration.",
+       "symbolic parameters, hence exploration. Argument validation IS proved (VCs over __Integer.__init__ and the four public "
+       "constructors, all integers and argument kinds): InvalidArgumentTypeException iff a bound is not an int (bool excluded), "
+       "InvalidArgumentValueException iff start < 0 or start > end, nothing else raised.",
   note=LANGNOTE, technique="per-parameter complete language decision of the emitted pattern (SMT regex theory + derivative-product procedure), labelled bounded in the parameters",
   design_ref="DESIGN.md section 8 (C15), 7 (B5)")
 CHECKS["C16"] = dict(
   category="exploration",
   text="As C15 for Decimal / UnsignedDecimal / NegativeDecimal: per parameter tuple (ranges x fraction-length bounds x is_extensible) "
        "the emitted language in every context equals 'integer part of the corresponding Integer pattern (or none when start is 0) . "
-       "min..max digits'; invalid bounds raise the documented exceptions (bounded sample). PositiveDecimal / include_sign: only "
-       "constructed and validated (their sign rules are not documented precisely).",
+       "min..max digits'. Argument validation proved by VCs over __Decimal.__init__ and the four public constructors (all integers "
+       "and argument kinds, exceptions iff documented). PositiveDecimal / include_sign: only constructed and validated (their sign "
+       "rules are not documented precisely).",
   note=LANGNOTE, technique="per-parameter complete language decision of the emitted pattern, labelled bounded in the parameters",
   design_ref="DESIGN.md section 8 (C16)")
 CHECKS["C17"] = dict(
@@ -189,7 +197,8 @@ CHECKS["C17"] = dict(
   text="Per parameter tuple (all 15 bases x length bounds; Word bounds x is_global x is_extensible; affix lists incl. "
        "metacharacters) the emitted language in every context equals the documented reference language (Numeral: standalone "
        "strings of n_min..n_max digits of the base; Word: maximal runs of word characters; Word*: words containing / starting / "
-       "ending with a literal affix); invalid parameters raise the documented exceptions (bounded sample).",
+       "ending with a literal affix). Argument validation proved by VCs over the five real constructors (all integers / argument "
+       "kinds; affix lists up to length 2 with arbitrary contents): exceptions iff documented, nothing else raised.",
   note=LANGNOTE, technique="per-parameter complete language decision of the emitted pattern against a reference language, labelled bounded in the parameters",
   design_ref="DESIGN.md section 8 (C17)")
 
